@@ -939,6 +939,14 @@ impl MigrationState {
     /// [`MigrationProver::lock_spent_notes`]). It is recorded in the same pass as the proven bytes
     /// so a store write persists the artifact and its lock token together: a caller that persists
     /// after proving can never end up with a proved transaction whose locks it can no longer name.
+    ///
+    /// A no-op for a transaction that is already [`Broadcast`](MigrationTxState::Broadcast) or
+    /// [`Mined`](MigrationTxState::Mined). A proof can land LATE: the prove functions accept only a
+    /// `Signed` row, but a prover started while the row was `Signed` (a slow one the consumer gave
+    /// up on and re-ran, say) may hand its result to the store after an earlier proof of the same
+    /// row has been broadcast, or has mined. The artifact that is in flight or on chain is the one
+    /// the row describes — the late proof proves the same transaction and is simply dropped — and
+    /// a transaction moves backwards only through [`MigrationState::truncate_to_height`].
     pub fn set_transaction_proved(
         &mut self,
         id: MigrationTransferId,
@@ -947,9 +955,14 @@ impl MigrationState {
     ) {
         for tx in &mut self.transactions {
             if tx.id() == id {
-                tx.pczt = proven_pczt;
-                tx.state = MigrationTxState::Proved;
-                tx.lock_owner = lock_owner;
+                if !matches!(
+                    tx.state,
+                    MigrationTxState::Broadcast { .. } | MigrationTxState::Mined { .. }
+                ) {
+                    tx.pczt = proven_pczt;
+                    tx.state = MigrationTxState::Proved;
+                    tx.lock_owner = lock_owner;
+                }
                 break;
             }
         }
